@@ -93,6 +93,10 @@ pub fn candidates(spec: &AppSpec) -> Vec<AppSpec> {
 }
 
 pub fn shrink(spec: &AppSpec, budget: usize, still_fails: &mut dyn FnMut(&AppSpec) -> bool) -> (AppSpec, usize) {
+    // (debugging aid for seed-matrix runs, where only the verdict matters)
+    if std::env::var("PX_NO_SHRINK").is_ok() {
+        return (spec.clone(), 0);
+    }
     let mut cur = spec.clone();
     let mut used = 0;
     'outer: loop {
